@@ -183,6 +183,19 @@ func c05Record(c *Ctx, stream string, g *GenRR) {
 		if rr2.String() != txt {
 			return "text-not-stable: " + rr2.String()
 		}
+		// the sibling entry points read the same text the same way
+		rr5, err := dns.ReadRR(strings.NewReader(txt), "verif.zone")
+		if err != nil || rr5 == nil {
+			return fmt.Sprint("ReadRR: ", err)
+		}
+		if !dns.IsDuplicate(rr2, rr5) || rr5.Header().Ttl != rr2.Header().Ttl {
+			return "ReadRR reads a different record: " + rr5.String()
+		}
+		zp := dns.NewZoneParser(strings.NewReader(txt+"\n"), "", "verif.zone")
+		rr6, ok6 := zp.Next()
+		if !ok6 || rr6 == nil || zp.Err() != nil || !dns.IsDuplicate(rr2, rr6) || rr6.Header().Ttl != rr2.Header().Ttl {
+			return fmt.Sprint("ZoneParser reads a different record: ", rr6, zp.Err())
+		}
 		return "ok"
 	})
 	c.Hit("text:" + tn)
